@@ -288,6 +288,13 @@ func OpenConnection(ea, eb *ConnEnd, delay uint64) {
 
 // OpenChannel runs an honest channel handshake on an open connection.
 func OpenChannel(ea, eb *ConnEnd, portA, portB, version string, order channeltypes.Order) (*ChanEnd, *ChanEnd) {
+	return OpenChannelSteps(ea, eb, portA, portB, version, order, true)
+}
+
+// OpenChannelSteps is OpenChannel that can stop before the last step: with confirm == false end a
+// is OPEN and end b stays TRYOPEN (the window in which a relayer can race packets against the
+// confirmation).
+func OpenChannelSteps(ea, eb *ConnEnd, portA, portB, version string, order channeltypes.Order, confirm bool) (*ChanEnd, *ChanEnd) {
 	a, b := ea.Chain, eb.Chain
 	ca := &ChanEnd{Conn: ea, Chain: a, Port: portA, Order: order, Version: version}
 	cb := &ChanEnd{Conn: eb, Chain: b, Port: portB, Order: order, Version: version}
@@ -308,6 +315,9 @@ func OpenChannel(ea, eb *ConnEnd, portA, portB, version string, order channeltyp
 	proof, ph = b.IBCProof(host.ChannelKey(portB, cb.ChanID), h)
 	a.mustOK("chan ack", sa, channeltypes.NewMsgChannelOpenAck(portA, ca.ChanID, cb.ChanID, cb.Version, proof, ph, sa.String()))
 	ca.Version = a.ChannelEnd(portA, ca.ChanID).Version
+	if !confirm {
+		return ca, cb
+	}
 
 	h = SetupUpdate(eb)
 	proof, ph = a.IBCProof(host.ChannelKey(portA, ca.ChanID), h)
